@@ -212,6 +212,7 @@ func subscribeSession(g *gen, rng *rand.Rand) (reqs []*pb.SubscribeRequest, feed
 }
 
 func judgeSubscribe(r *vlib.Run, mode string, trial int, rng *rand.Rand, reqs []*pb.SubscribeRequest, feed []*pb.Notification) string {
+	optSeed := rng.Int63() // the server options and cache state of this session (re-used when a crash is shrunk)
 	var texts, feedTexts []string
 	var hash []interface{}
 	for _, q := range reqs {
@@ -223,7 +224,7 @@ func judgeSubscribe(r *vlib.Run, mode string, trial int, rng *rand.Rand, reqs []
 		feedTexts = append(feedTexts, ptext(n))
 	}
 	r.SaveCurrent(map[string]interface{}{"mode": mode, "trial": trial, "entry_point": "subscribe", "requests": texts, "cache_feed": feedTexts})
-	out, pi, entry, culprit := runSubscribe(r, rng, reqs, feed)
+	out, pi, entry, culprit := runSubscribe(r, rand.New(rand.NewSource(optSeed)), reqs, feed)
 	r.Eval(1)
 	sl := reqs[0].GetSubscribe()
 	if _, known := pb.SubscriptionList_Mode_name[int32(sl.GetMode())]; known {
@@ -235,7 +236,15 @@ func judgeSubscribe(r *vlib.Run, mode string, trial int, rng *rand.Rand, reqs []
 		r.Count("subscribe_panics", 1)
 		class := fallbackClass(pi.Kind, culprit)
 		if n, ok := culprit.(*pb.Notification); ok && entry == "cache-ingest" {
-			class = cacheClass(pi, n, nil)
+			class, _ = cacheClass(pi, n, nil)
+		} else if entry == "subscribe" {
+			small := shrink(reqs[0], 120, func(m proto.Message) bool {
+				rs := append([]*pb.SubscribeRequest{proto.Clone(m).(*pb.SubscribeRequest)}, reqs[1:]...)
+				_, p2, e2, _ := runSubscribe(r, rand.New(rand.NewSource(optSeed)), rs, feed)
+				return p2 != nil && e2 == entry && p2.Kind == pi.Kind
+			})
+			class = shrunkClass(pi.Kind, small)
+			texts = append(texts, "shrunk first request: "+ptext(small))
 		}
 		r.Violation(mode, trial, entry+":"+class, fmt.Sprintf("%s (during a live Subscribe session): %s; first request: %s; message: %s", entry, pi, truncate(texts[0], 300), truncate(ptext(culprit), 300)),
 			map[string]interface{}{"entry_point": entry, "requests": texts, "cache_feed": feedTexts, "panic": pi, "message": ptext(culprit)})
